@@ -176,6 +176,14 @@ def run(ctx):
         twice = [x for x in others if x.idx in ban.reach_after(blk.idx, ('normal',))]
         ctx.ob('R01.4', 'one add_permits per path', not twice, ctx.where(b, blk.term.line),
                'a second add_permits is reachable', construct='add_permits-twice:' + b.name)
+        # publication order on the return path: the object is in the idle queue before the permit that advertises it is
+        # released - otherwise a waiter woken by the permit finds the queue empty and creates one object too many
+        if b.path in {h.path for h in r.RETURN} and b.path not in {h.path for h in r.TAKE}:
+            pushes = [x.idx for x, m in queue_calls(r, b, ban) if m.startswith('push')]
+            okp = bool(pushes) and blk.idx not in ban.reach([0], ('normal',), avoid=pushes)
+            ctx.ob('R01.4', 'a returned object is queued before its permit is released', okp, ctx.where(b, blk.term.line),
+                   'add_permits can run before the object has been pushed: a woken get() pops nothing and creates an object beyond max_size' if not okp else '',
+                   construct='permit-before-push:' + b.name)
         # governing comparison
         rels = governing_relations(ban, r, blk.idx)
         dec = r.field_writes(b, r.SLOTS, r.SIZE)
